@@ -11,6 +11,8 @@ import HawkModel.Drv.Gc
 import HawkModel.Drv.Depth
 import HawkModel.Drv.Oom
 import HawkModel.Drv.Sed
+import HawkModel.Drv.Ctx
+import HawkModel.Drv.ReadIo
 
 def main (args : List String) : IO UInt32 := do
   match args with
@@ -27,4 +29,6 @@ def main (args : List String) : IO UInt32 := do
   | "depth" :: _ => Hawk.Drv.Depth.main; return 0
   | "oom" :: _ => Hawk.Drv.Oom.main; return 0
   | "sed" :: _ => Hawk.Drv.Sed.main; return 0
+  | "ctx" :: _ => Hawk.Drv.Ctx.main; return 0
+  | "readio" :: _ => Hawk.Drv.ReadIo.main; return 0
   | _ => IO.eprintln "usage: hawkdrv <area>"; return 2
